@@ -38,6 +38,8 @@ def scenarios(tier, seed):
         add("mll", n=2, lik="gaussian", mean="constant", priors="shared", batch=0)
         add("loo", n=3, lik="gaussian", priors=True)
         add("loo", n=2, lik="fixed_learn", priors=False)
+        add("mll", n=2, lik="fixed", mean="constant", priors=False, batch=0, call_noise=True)
+        add("mll", n=3, lik="fixed_learn", mean="zero", priors=False, batch=0, call_noise=True)
         add("sum_mll", n1=2, n2=3)
     else:
         for n in (1, 2, 3, 4):
@@ -51,6 +53,9 @@ def scenarios(tier, seed):
                 add("loo", n=n, lik=lik, priors=(n == 3))
         add("sum_mll", n1=2, n2=3)
         add("sum_mll", n1=3, n2=3)
+        for lk in ("fixed", "fixed_learn"):
+            add("mll", n=3, lik=lk, mean="constant", priors=False, batch=0, call_noise=True)
+            add("mll", n=2, lik=lk, mean="constant", priors=False, batch=2, call_noise=True)
         add("mll", n=3, lik="gaussian", mean="constant", priors="shared", batch=0)
         add("loo", n=2, lik="gaussian", priors="shared")
     return out
@@ -87,9 +92,14 @@ def _build(S, n, lik, mean, priors, bs, train=True):
     return x, y, Y, likelihood, model, table, Gs, Gc
 
 
-def _fill_table(S, table, Gs, Gc, likelihood, x, n, bs):
-    """table := G G^T - S, with S what the likelihood itself adds (evaluated under the mode)"""
-    Sd = as_sym_arr(SH.get(dense(likelihood._shaped_noise_covar(torch.Size(bs + (n,)), [x]))))
+def _fill_table(S, table, Gs, Gc, likelihood, x, n, bs, noise_diag=None):
+    """table := G G^T - S, with S what the likelihood itself adds (evaluated under the mode), or the call-time noise"""
+    if noise_diag is not None:
+        Sd = np.empty(bs + (n, n), dtype=object)
+        for idx in np.ndindex(*Sd.shape):
+            Sd[idx] = noise_diag[idx[:-2] + (idx[-1],)] if idx[-1] == idx[-2] else Sym.const(0.0)
+    else:
+        Sd = as_sym_arr(SH.get(dense(likelihood._shaped_noise_covar(torch.Size(bs + (n,)), [x]))))
     Sd = np.diagonal(Sd, axis1=-2, axis2=-1)
     J = Gs @ np.swapaxes(Gs, -1, -2)
     K = J.copy()
@@ -138,15 +148,23 @@ def _sum_prior(terms, b, bs):
     return tot
 
 
-def mll(S, n, lik, mean, priors, batch):
+def mll(S, n, lik, mean, priors, batch, call_noise=False):
     bs = (batch,) if batch else ()
     x, y, Y, likelihood, model, table, Gs, Gc = _build(S, n, lik, mean, priors, bs)
     table.requires_grad_(True)
     mll_mod = gpytorch.mlls.ExactMarginalLogLikelihood(likelihood, model)
+    kw, nd = {}, None
+    if call_noise:
+        # mll(output, y, noise=s): the call-time noise replaces the stored fixed noise (the learned part, if any, is still added)
+        cn = S.rand(*bs, n, lo=0.05, hi=0.5)
+        nd = S.sym_tensor(cn, "callnoise", positive=True)
+        kw = {"noise": cn}
     with S.mode():
-        J, K, Sd = _fill_table(S, table.data, Gs, Gc, likelihood, x, n, bs)
+        if call_noise and lik == "fixed_learn":
+            nd = nd + as_sym_arr(SH.get(likelihood.second_noise)).reshape(bs + (1,))
+        J, K, Sd = _fill_table(S, table.data, Gs, Gc, likelihood, x, n, bs, noise_diag=nd)
         mx = as_sym_arr(SH.get(model.mean_module(x)))
-        loss = mll_mod(model(x), y)
+        loss = mll_mod(model(x), y, **kw)
         terms = _prior_terms(model, likelihood, bs)
         (loss.sum() if bs else loss).backward()
     refs = []
@@ -167,7 +185,7 @@ def mll(S, n, lik, mean, priors, batch):
     for p in list(model.parameters()):
         if p.requires_grad:
             leaves.append((p, as_sym_arr(SH.get(p.data))))
-    atoms = [a for a in CTX.atoms if not a.startswith("y") and not a.startswith("fixednoise")]
+    atoms = [a for a in CTX.atoms if not a.startswith("y") and not a.startswith("fixednoise") and not a.startswith("callnoise")]
     if S.params.get("n", 0) >= 3:
         # G atoms: all diagonal + first column + last row (every Gram entry is touched); parameters: all
         keep = set()
